@@ -87,6 +87,10 @@ def variants(s):
     if k == "any":
         for v in ANYS:
             yield copy.deepcopy(v)
+    elif k == "num":
+        yield from (-1, 0, 1)
+    elif k == "str":
+        yield ""
     elif k == "opt":
         yield None
         yield from variants(s["e"])
